@@ -113,6 +113,7 @@ class GoGen:
         self.local_pkg = local_pkg  # package the test lives in (types printed unqualified)
         self.specs = {}             # go func name -> code
         self.used_imports = set()
+        self.alias_imports = {}
         self.in_old = False
 
     # ---- types
@@ -326,15 +327,27 @@ class GoGen:
         raise Untranslatable('call %r' % (f,))
 
     def call_spec(self, sf, args):
-        if sf.body is None:
-            raise Untranslatable('uninterpreted spec function ' + sf.name)
         name = 'spec_%s_%s' % (sf.pkg.rsplit('/', 1)[-1].replace('-', '_'), sf.name)
         targs = [self.tr(a) for a in args]
+        if sf.body is None:
+            code = self.prog.cs.execs.get((sf.pkg, sf.name))
+            if code is None:
+                raise Untranslatable('uninterpreted spec function ' + sf.name)
+            for a, p in (self.prog.cs.exec_imports.get(sf.pkg) or {}).items():
+                self.alias_imports[a] = p
+            rt = sf.rtype
+            rtk = MATHINT if rt in ('int', 'mathint') else ('bool' if rt == 'bool' else 'string')
+            self.specs[name] = ('var %s = %s' % (name, code), rtk)
+            cargs = []
+            for (pn, pt), (c, tk) in zip(sf.params, targs):
+                cargs.append(self.big(c, tk) if pt in ('int', 'mathint') else ('vSeq(%s)' % c if pt == 'seq' else c))
+            return '%s(%s)' % (name, ', '.join(cargs)), rtk
         if name not in self.specs:
             self.specs[name] = None   # recursion guard
             sub = GoGen(self.prog, sf.pkg, sf.imports, {}, self.local_pkg)
             sub.specs = self.specs
             sub.used_imports = self.used_imports
+            sub.alias_imports = self.alias_imports
             ps = []
             for (pn, pt), (code, tk) in zip(sf.params, targs):
                 if pt in ('int', 'mathint'):
